@@ -21,7 +21,7 @@ def sc_names(src):
     return [s["name"] for s in src["scs"]]
 
 
-def render_rules(src, posix=False, use_scopes=False, xseed=None, auto=(), vact=None):
+def render_rules(src, posix=False, use_scopes=False, xseed=None, auto=(), vact=None, words=False):
     """section-2 text (list of lines) for the rule set; actions are VACT(k)."""
     names = sc_names(src)
     defnames = ["D%d" % (i + 1) for i in range(len(src.get("defs", [])))]
@@ -56,6 +56,9 @@ def render_rules(src, posix=False, use_scopes=False, xseed=None, auto=(), vact=N
             if r["bol"]:
                 pat = "^" + pat
             act = r.get("action") or ("{ %s }" % (vact % k if vact else "VACT(%d)" % k))
+            if words and not r.get("action"):
+                # ordinary C identifiers that only look like flex's own action words (flex finds REJECT / yymore() uses in the action text)
+                act = "{ int reject = %d, Reject = 1, YYMORE = 2, rejected = 3; (void)reject; (void)Reject; (void)YYMORE; (void)rejected; %s }" % (k, act)
             # "auto": the feature is not requested by %option; flex has to find its use in the action text
             if auto and not r.get("action") and not r.get("bar") and not done_auto:
                 act = "{ %s if (vnever) { %s } }" % ((vact % k if vact else "VACT(%d)" % k), " ".join({"reject": "REJECT;", "yymore": "yymore();"}[a] for a in auto))
@@ -107,6 +110,7 @@ DEFAULT_CFG = dict(
     useread=False,     # %option read: the scanner's own input routine uses read(2) (needs userread False)
     instances=False,   # C12 harness: several reentrant instances in one process
     extra_opts="",     # further %option text
+    actionwords=False, # actions declare C identifiers that resemble flex's action words (reject, Reject, YYMORE)
 )
 
 
@@ -170,7 +174,7 @@ def emit_l(src, cfg):
     out.append("%}")
     out += render_defs(src, c["posix"])
     out.append("%%")
-    out += render_rules(src, c["posix"], c["scopes"], c.get("xseed"), auto=[o for o in ("reject", "yymore") if c[o] == "auto"], vact=vact)
+    out += render_rules(src, c["posix"], c["scopes"], c.get("xseed"), auto=[o for o in ("reject", "yymore") if c[o] == "auto"], vact=vact, words=bool(c.get("actionwords")))
     out.append("%%")
     out.append(tmpl)
     return "\n".join(out) + "\n"
